@@ -375,8 +375,10 @@ static std::vector<AnswerSpec> answerUniverse(uint8_t own) {
     AnswerSpec{-1, os, 0xb5, 0x09, Bytes{0x0d}, ref::unhex("02a9aa")},                     // id 1, answer needs escapes
     AnswerSpec{0x10, os, 0xb5, 0x09, Bytes{0x0d, 0x01}, ref::unhex("0155")},              // id 2, source restricted
     AnswerSpec{0x10, os, 0xb5, 0x09, Bytes{0x0d}, ref::unhex("0166")},                     // id 1, source restricted (same id as #1)
-    AnswerSpec{-1, own, 0xb5, 0x10, Bytes{0x01}, ref::unhex("0100")},                      // master destination, tail length 1
+    AnswerSpec{-1, own, 0xb5, 0x10, Bytes{0x01}, ref::unhex("03000000")},                  // master destination, id 1, tail length 3
     AnswerSpec{-1, 0x08, 0xb5, 0x04, Bytes{0x01, 0x02, 0x03, 0x04}, ref::unhex("00")},     // foreign address, id 4
+    AnswerSpec{-1, own, 0xb5, 0x10, Bytes{0x01, 0x02}, ref::unhex("0100")},                // master destination, nested id 2, tail length 1
+    AnswerSpec{-1, own, 0xb5, 0x10, Bytes{}, ref::unhex("0400000000")},                   // master destination, no id, tail length 4
   };
 }
 // foreign master script talking to an address ebusd may answer: variant 0 plain, 1 bad CRC first then repeat,
@@ -426,7 +428,7 @@ static std::vector<Scenario> scenariosC15(bool thorough, const vp::Args& A) {
       std::vector<Bytes> datas;
       datas.push_back(a.id);
       if (!a.id.empty()) { Bytes t = a.id; t.pop_back(); datas.push_back(t); Bytes mu = a.id; mu.back() ^= 0x80; datas.push_back(mu); }
-      for (int extra : {1, 2, 4, 6}) { Bytes e = a.id; for (int j = 0; j < extra; j++) e.push_back((uint8_t)(0x01 + j)); if (e.size() <= 16) datas.push_back(e); }
+      for (int extra : {1, 2, 3, 4, 6}) { Bytes e = a.id; for (int j = 0; j < extra; j++) e.push_back((uint8_t)(0x01 + j)); if (e.size() <= 16) datas.push_back(e); }
       if (thorough) { Bytes e = a.id; while (e.size() < 16) e.push_back(0xa9); datas.push_back(e); }
       for (auto& d : datas) {
         Bytes m = {srcs[si], a.dst, a.pb, a.sb, (uint8_t)d.size()};
